@@ -13,6 +13,11 @@ recovery, before and after helper inlining).  Every rewrite preserves behaviour 
 
 C3 is the direction chosen because guard clauses are what the reviewed tree mostly uses.
 
+  C5  table comprehensions  a list / dict comprehension with ONE generator, no filter, over a literal
+                         tuple / list / dict display (or `<display>.items()`, or a local bound once to such
+                         a display and never changed) of at most 8 entries  ->  the explicit display:
+                         {k: f(v) for k, v in {"y": a, "x": b}.items()}  ->  {"y": f(a), "x": f(b)}
+
   C4  match lowering     ``match s: case "a": A  case B(): C  case _: D`` with value / singleton /
                          or / class-without-arguments / wildcard / capture patterns
                                                                           ->  if s == "a": A elif isinstance(s, B): C else: D
@@ -112,6 +117,90 @@ def lower_match(st: ast.Match, counter: list) -> list[ast.stmt]:
     return pre + chain
 
 
+def _literal_entries(fn, it: ast.expr):
+    """Entries of a literal table iterated by a comprehension: list of expressions (tuples for .items())."""
+    from .astutil import _mutated, local_defs
+
+    def resolve(e):
+        if isinstance(e, ast.Name):
+            defs = local_defs(fn, e.id)
+            if len(defs) == 1 and defs[0][1] is not None and isinstance(defs[0][1], (ast.Tuple, ast.List, ast.Dict)) and not _mutated(fn, e.id):
+                return defs[0][1]
+        return e
+
+    items = False
+    if isinstance(it, ast.Call) and isinstance(it.func, ast.Attribute) and it.func.attr == "items" and not it.args:
+        it, items = it.func.value, True
+    it = resolve(it)
+    if items:
+        if isinstance(it, ast.Dict) and all(k is not None for k in it.keys) and 0 < len(it.keys) <= 8:
+            return [ast.Tuple(elts=[k, v], ctx=ast.Load()) for k, v in zip(it.keys, it.values)]
+        return None
+    if isinstance(it, (ast.Tuple, ast.List)) and 0 < len(it.elts) <= 8 and not any(isinstance(e, ast.Starred) for e in it.elts):
+        return list(it.elts)
+    return None
+
+
+def _bind_pattern(target: ast.expr, value: ast.expr, env: dict) -> bool:
+    if isinstance(target, ast.Name):
+        env[target.id] = value
+        return True
+    if isinstance(target, (ast.Tuple, ast.List)) and isinstance(value, (ast.Tuple, ast.List)) and len(target.elts) == len(value.elts):
+        return all(_bind_pattern(t, v, env) for t, v in zip(target.elts, value.elts))
+    return False
+
+
+def unroll_table_comprehensions(fn) -> int:
+    from .astutil import clone
+
+    n = 0
+
+    class S(ast.NodeTransformer):
+        def __init__(self, env):
+            self.env = env
+
+        def visit_Name(self, node):
+            if isinstance(node.ctx, ast.Load) and node.id in self.env:
+                return clone(self.env[node.id])
+            return node
+
+    class U(ast.NodeTransformer):
+        def _one(self, node):
+            nonlocal n
+            self.generic_visit(node)
+            if len(node.generators) != 1 or node.generators[0].ifs or node.generators[0].is_async:
+                return node
+            g = node.generators[0]
+            entries = _literal_entries(fn, g.iter)
+            if entries is None:
+                return node
+            outs = []
+            for e in entries:
+                env: dict = {}
+                if not _bind_pattern(g.target, e, env):
+                    return node
+                if isinstance(node, ast.DictComp):
+                    outs.append((S(env).visit(clone(node.key)), S(env).visit(clone(node.value))))
+                else:
+                    outs.append(S(env).visit(clone(node.elt)))
+            n += 1
+            if isinstance(node, ast.DictComp):
+                new = ast.Dict(keys=[k for k, _ in outs], values=[v for _, v in outs])
+            else:
+                new = ast.List(elts=outs, ctx=ast.Load())
+            return ast.copy_location(new, node)
+
+        visit_DictComp = visit_ListComp = _one
+
+        def visit_FunctionDef(self, node):
+            return node if node is not fn else self.generic_visit(node)
+
+        visit_Lambda = lambda self, node: node  # noqa: E731
+
+    U().visit(fn)
+    return n
+
+
 def canon_function(fn) -> int:
     """Rewrite ``fn`` in place; returns the number of rewrites."""
     changed = 0
@@ -196,6 +285,7 @@ def canon_function(fn) -> int:
         return out
 
     fn.body = rewrite_block(fn.body)
+    changed += unroll_table_comprehensions(fn)
     if changed:
         ast.fix_missing_locations(fn)
         par = getattr(fn, "_parent", None)
